@@ -140,12 +140,28 @@ def p_out(o) -> dict:
             'params': o.params, 'delay': enc_g(o.delay), 'times': o.times, 'comma': bool(o.comma_sep)}
 
 
+# A keyvalue named "replace" + two or more decimal digits (any case) cannot be told from an instance fixup in
+# the file: the writer itself names fixups replace%02d (replace100 for the 100th).  The projection states what
+# fixup such a keyvalue denotes; Keep moves it to the fixups.  "replace" + ONE digit, "replace", "replace0x",
+# "replacement01" ... are ordinary keyvalues and must survive.
+_AMB = re.compile(r'replace(\d\d{1,3})\Z')
+
+
+def fx_of(fold: str, value: str) -> dict:
+    m = _AMB.match(fold)
+    if not m:
+        return {}
+    parts = value.split(' ', 1)
+    var = parts[0].lstrip('$')
+    return {'idx': int(m.group(1)), 'var': var, 'val': parts[1] if len(parts) > 1 else '', 'f': var.casefold()}
+
+
 def p_ent(e) -> dict:
     fix = {}
     if e._fixup is not None:
         fix = {f: {'var': fv.var, 'val': fv.value, 'idx': fv.id} for f, fv in e._fixup._fixup.items()}
     return {
-        'id': e.id, 'keys': {k.casefold(): {'k': k, 'v': v} for k, v in e._keys.items()}, 'fix': fix,
+        'id': e.id, 'keys': {k.casefold(): {'k': k, 'v': v, 'fx': fx_of(k.casefold(), v)} for k, v in e._keys.items()}, 'fix': fix,
         'outs': [p_out(o) for o in e.outputs], 'solids': [p_solid(s) for s in e.solids], 'hidden': bool(e.hidden),
         'groups': sorted(e.groups), 'vis': sorted(e.visgroup_ids), 'visShown': bool(e.vis_shown),
         'visAuto': bool(e.vis_auto_shown), 'color': V3(e.editor_color), 'logical': e.logical_pos,
@@ -239,13 +255,13 @@ def tokens(text: str) -> list:
         # block path without the "hidden" wrappers, so clause names stay in a finite list
         return ''.join('/' + b for b in stack if b != 'hidden')
 
-    def label(key: str) -> str:
+    def label(key: str, is_id: bool = False) -> str:
         # clause label of a token: path/key, with row numbers and user-chosen key names abstracted
         top = stack[-1] if stack else ''
         if re.match(r'row\d+\Z', key):
             key = 'row'
-        elif top in ('world', 'entity') and key != 'id':
-            key = 'replaceNN' if re.match(r'replace\d\d\Z', key) else '<key>'
+        elif top in ('world', 'entity') and not is_id:
+            key = '<key>'      # ordinary keyvalues and replaceNN fixup lines alike (a plain key may be named "id")
         elif top == 'connections':
             key = '<output>'
         return path() + '/' + key
@@ -256,7 +272,7 @@ def tokens(text: str) -> list:
             if not stack:
                 raise ValueError('unbalanced }')
             stack.pop()
-            out.append({'d': len(stack), 't': 'close', 'k': '', 'v': '', 'ik': '', 'n': 0, 'p': path(), 'c': path() + '/}'})
+            out.append({'d': len(stack), 't': 'close', 'k': '', 'v': '', 'ik': '', 'n': 0, 'p': path(), 'c': path() + '/}', 'amb': False})
             i += 1
         elif ty == '{':
             raise ValueError('{ without a name')
@@ -265,7 +281,7 @@ def tokens(text: str) -> list:
                 raise ValueError('dangling name')
             ty2, val2 = toks[i + 1]
             if ty2 == '{':
-                out.append({'d': len(stack), 't': 'open', 'k': val, 'v': '', 'ik': '', 'n': 0, 'p': path(), 'c': path() + '/' + val})
+                out.append({'d': len(stack), 't': 'open', 'k': val, 'v': '', 'ik': '', 'n': 0, 'p': path(), 'c': path() + '/' + val, 'amb': False})
                 stack.append(val.casefold())
                 i += 2
             elif ty2 == 'S':
@@ -279,9 +295,12 @@ def tokens(text: str) -> list:
                     elif val == 'groupid' and top == 'editor':
                         kind = 'group'
                 if kind:
-                    out.append({'d': len(stack), 't': 'kv', 'k': val, 'v': '', 'ik': kind, 'n': int(val2), 'p': path(), 'c': label(val)})
+                    out.append({'d': len(stack), 't': 'kv', 'k': val, 'v': '', 'ik': kind, 'n': int(val2), 'p': path(), 'c': label(val, True), 'amb': False})
                 else:
-                    out.append({'d': len(stack), 't': 'kv', 'k': val, 'v': val2, 'ik': '', 'n': 0, 'p': path(), 'c': label(val)})
+                    out.append({'d': len(stack), 't': 'kv', 'k': val, 'v': val2, 'ik': '', 'n': 0, 'p': path(), 'c': label(val),
+                                'amb': top in ('world', 'entity') and bool(_AMB.match(val.casefold()))})
+                    if out[-1]['amb']:
+                        out[-1]['kf'] = val.casefold()     # fixup lines have no spelling of their own
                 i += 2
             else:
                 raise ValueError('name followed by }')
@@ -841,6 +860,15 @@ def pick(rng: random.Random, classes) -> str:
 KEY_SYMS = [{'k1': 'message', 'K1': 'Message', 'k2': 'origin'},
             {'k1': 'stra\u00dfe', 'K1': 'STRASSE', 'k2': 'spawnflags'},
             {'k1': 'targetname', 'K1': 'TargetName', 'k2': 'angles'}]
+# k3: names around the replaceNN boundary and structural words of the entity block, as ordinary keyvalues;
+# k4: a name the format reads as fixup replaceNN, with values f1/f2 in the fixup's canonical form "$var value"
+TRICKY_SYMS = [{'k3': k} for k in ('replace', 'replace5', 'REPLACE7', 'replace0x', 'replacement01', 'Replace_tex42', 'replace0',
+                                   'id', 'ID', 'solid', 'editor', 'connections', 'hidden', 'group', 'side', 'entity')]
+AMB_SYMS = [{'k4': k} for k in ('replace07', 'REPLACE42', 'Replace99')]
+FX_SYMS = [{'f1': '$fxa 10 20', 'f1v': 'fxa', 'f1r': '10 20', 'f1f': 'fxa',
+            'f2': '$Fx_B say "hi"', 'f2v': 'Fx_B', 'f2r': 'say "hi"', 'f2f': 'fx_b'},
+           {'f1': '$stra\u00dfe ', 'f1v': 'stra\u00dfe', 'f1r': '', 'f1f': 'strasse',
+            'f2': '$q  two spaces\nand a line', 'f2v': 'q', 'f2r': ' two spaces\nand a line', 'f2f': 'q'}]
 VAR_SYMS = [{'v1': 'skin', 'V1': '$SKIN', 'v2': 'connectioncount'},
             {'v1': '$start_enabled', 'V1': 'Start_Enabled', 'v2': '$x'}]
 STR_SYMS = [{'s1': 'relay_1', 's2': 'say "hi"', 's3': 'C:\\maps\\new', 's4': 'line1\nline2', 's5': ''},
@@ -856,7 +884,7 @@ def concretise(obj, table: dict):
     """replace every string of the form '@sym' by its concrete representative"""
     if isinstance(obj, str):
         if obj.startswith('@'):
-            return table[obj[1:]]
+            return table.get(obj[1:], obj)
         return obj
     if isinstance(obj, list):
         return [concretise(x, table) for x in obj]
@@ -867,7 +895,7 @@ def concretise(obj, table: dict):
 
 def sym_table(rng: random.Random) -> dict:
     t = {}
-    for fam in (KEY_SYMS, VAR_SYMS, STR_SYMS, NAME_SYMS):
+    for fam in (KEY_SYMS, TRICKY_SYMS, AMB_SYMS, FX_SYMS, VAR_SYMS, STR_SYMS, NAME_SYMS):
         t.update(rng.choice(fam))
     return t
 
@@ -877,6 +905,11 @@ def finish_action(a: dict) -> dict:
     a = dict(a)
     if a['op'] in ('SetKey', 'DelKey'):
         a['f'] = a['k'].casefold()
+    if a['op'] == 'SetKey':
+        fx = fx_of(a['f'], a['v'])
+        if a.get('fx') and a['fx'].get('var', '')[:1] != '@' and {k: a['fx'][k] for k in ('var', 'val', 'f')} != {k: fx[k] for k in ('var', 'val', 'f')}:
+            raise Machinery(f'symbol table and fx_of disagree: {a}')
+        a['fx'] = fx
     if a['op'] in ('SetFixup', 'DelFixup'):
         var = a['var'][1:] if a['var'][:1] == '$' else a['var']
         a['f'] = var.casefold()
@@ -980,6 +1013,8 @@ def rand_axis(rng) -> list:
 ALL_STR = ['plain', 'mixed', 'quote', 'bslash', 'lf', 'empty', 'uni', 'punct']
 KEYNAMES = ['origin', 'angles', 'targetname', 'Message', 'spawnflags', 'model', 'rendercolor', 'Straße', 'my key',
             'parentname', 'StartDisabled', 'x', '_light', 'file', 'a.b', 'UPPER', 'ключ']
+TRICKYNAMES = ['replace', 'replace5', 'replace7', 'replace0', 'replace0x', 'replacement01', 'replace_tex42', 'replaceable99',
+               'replace 12', 'id', 'solid', 'editor', 'connections', 'hidden', 'group', 'side', 'entity', 'world', 'camera']
 VARNAMES = ['skin', '$skin', 'Start_Enabled', '$x', 'connectioncount', '$Timer_Delay', 'a', 'STRASSE', 'straße', 'var_1']
 OUTNAMES = ['OnTrigger', 'OnUser1', 'onpass', 'OnMapSpawn', 'On "Quoted"', 'On\\Back']
 INSTNAMES = ['relay', 'inst part', 'Branch_1', 'q"uote']
@@ -1001,7 +1036,7 @@ def rand_vert(rng, blend: int) -> dict:
 def random_doc(rng: random.Random, out, stats: dict, scale: int, special: str = '') -> None:
     b = Builder()
     vmf = b.vmf
-    log = scale <= 2
+    log = scale <= 2 and special != 'fix100'
 
     def do(a):
         b.step(finish_action(a), out, 'random', log=log)
@@ -1017,11 +1052,21 @@ def random_doc(rng: random.Random, out, stats: dict, scale: int, special: str = 
         if c < 0.08 or (ents == 0 and c < 0.3):
             do({'op': 'AddEnt', 'cls': pick(rng, ['plain', 'mixed', 'uni'])})
         elif c < 0.2:
-            k = rng.choice(KEYNAMES)
+            k = rng.choice(KEYNAMES if rng.random() < 0.7 else TRICKYNAMES)
             k = rng.choice([k, k.upper(), k.lower(), k.capitalize()])
             if e == 0 and k.casefold() in ('classname', 'mapversion'):
                 continue
-            do({'op': 'SetKey', 'e': e, 'k': k, 'v': pick(rng, ALL_STR)})
+            v = pick(rng, ALL_STR)
+            if k.casefold() == 'id' and v.isnumeric():
+                continue    # "id" with a numeric value IS the entity's ID line in the file
+            do({'op': 'SetKey', 'e': e, 'k': k, 'v': v})
+        elif c < 0.205:
+            # a keyvalue the format reads as fixup replaceNN, in the fixup's own form "$var value"; index and
+            # variable distinct from the entity's fixups (which use indexes 1.. and the names in VARNAMES)
+            k = rng.choice(['replace42', 'REPLACE57', 'Replace99'])
+            if any(_AMB.match(x.casefold()) and x.casefold() != k.casefold() for x in ent._keys):
+                continue
+            do({'op': 'SetKey', 'e': e, 'k': k, 'v': '$' + rng.choice(['kvfix', 'KvFix_B', 'q']) + ' ' + rng.choice(['', pick(rng, ALL_STR)])})
         elif c < 0.22:
             ks = [k for k in ent._keys if k.casefold() not in ('classname', 'targetname', 'nodeid')]
             if ks:
@@ -1172,6 +1217,12 @@ def random_doc(rng: random.Random, out, stats: dict, scale: int, special: str = 
         do({'op': 'SetKey', 'e': 0, 'k': rng.choice(['a\\nb', 'back\\', 'tab\\there']), 'v': 'value'})
     elif special == 'replaceNN':
         do({'op': 'SetKey', 'e': 0, 'k': rng.choice(['replacement01', 'replace_tex42', 'REPLACEABLE99']), 'v': 'some value'})
+    elif special == 'fix100':
+        # more than 99 fixups: the writer names them replace100, replace101, ...
+        for i in range(101):
+            do({'op': 'SetFixup', 'e': 0, 'var': f'v{i}', 'val': str(i)})
+    elif special == 'replace3':
+        do({'op': 'SetKey', 'e': 0, 'k': rng.choice(['replace123', 'REPLACE100']), 'v': '$big 1 2'})
     elif special == 'view_zero':
         views = [{'k': '3d', 'axis': '', 'n': [[0, 0, 0]] * 6}] + [{'k': '2d', 'axis': ax, 'n': [[0, 0, 0], [0, 5, 0], [0, 1, 0]]}
                                                                   for ax in 'xyz']
@@ -1229,7 +1280,7 @@ def mode_random(out, stats: dict) -> None:
         random_doc(rng, out, stats, 2)
     for _ in range(n_big):
         random_doc(rng, out, stats, 4)
-    for special in ('mat', 'key', 'replaceNN', 'view_zero', 'tinyneg', 'hidden_first'):
+    for special in ('mat', 'key', 'replaceNN', 'fix100', 'replace3', 'view_zero', 'tinyneg', 'hidden_first'):
         for _ in range(6 if thorough else 2):
             random_doc(rng, out, stats, 1, special)
 
